@@ -326,7 +326,12 @@ func (g *c05Gen) stmt(d int) *c05N {
 		case 2:
 			head = &c05N{code: true, parts: []interface{}{"htmlEscape(", g.expr("str", 1, "arg-blockhelper"), ")"}}
 		case 3:
-			head = &c05N{code: true, parts: []interface{}{`contentOf("never-defined")`}}
+			name := "never-defined"
+			if len(g.cfTop) > 0 && g.r.Bool() {
+				// the default block of a contentOf whose name IS defined (up front): the stored block is what gets rendered
+				name = g.pick(g.cfTop)
+			}
+			head = &c05N{code: true, parts: []interface{}{`contentOf("` + name + `")`}}
 		default:
 			head = &c05N{code: true, parts: []interface{}{`contentOf("never-defined", `, g.expr("hash", 2, "arg-builtin"), ")"}}
 		}
@@ -345,6 +350,10 @@ func (g *c05Gen) stmt(d int) *c05N {
 			use.parts = []interface{}{`contentOf("` + name + `")`}
 		} else {
 			use.parts = []interface{}{`contentOf("` + name + `", `, g.expr("hash", 2, "arg-builtin"), ")"}
+		}
+		if g.r.Chance(40) {
+			// with a default block (used when nothing is stored under the name; here something is)
+			use.parts = append(use.parts, " { %>", g.block("helper-block", 1, 0), "<% }")
 		}
 		return &c05N{parts: []interface{}{`<% contentFor("` + name + `") { %>`, body, "<% } %>", g.stmt(0), "<%= ", use, " %>"}}
 	case 15, 16: // partial
@@ -473,10 +482,16 @@ func (g *c05Gen) html(role string) *c05N {
 	case 0, 1:
 		return g.partialCall(role, d+1)
 	case 2:
+		var n *c05N
 		if g.r.Bool() {
-			return c05E(role, `contentOf("`+g.pick(g.cfTop)+`")`)
+			n = c05E(role, `contentOf("`+g.pick(g.cfTop)+`")`)
+		} else {
+			n = c05E(role, `contentOf("`+g.pick(g.cfTop)+`", `, g.expr("hash", 1, "arg-builtin"), ")")
 		}
-		return c05E(role, `contentOf("`+g.pick(g.cfTop)+`", `, g.expr("hash", 1, "arg-builtin"), ")")
+		if g.r.Chance(40) {
+			n.parts = append(n.parts, " { %>", g.block("helper-block", 1, 0), "<% }")
+		}
+		return n
 	}
 	var head []interface{}
 	switch g.r.Intn(4) {
